@@ -8,8 +8,8 @@ import (
 	redact "github.com/cockroachdb/redact"
 )
 
-var alphaC07 = []string{"a", mStart, mEnd, mCross, "\n", "\xe2", "\x80", "\xb9"}
-var alphaWFtok = []string{"a", mCross, "\n", "?", mStart, mEnd}
+var alphaC07 = []string{"a", mStart, mEnd, mCross, "\n", "\xe2", "\x80", "\xb9", "\ufffd", "é", "\U0001F600", "\xba"}
+var alphaWFtok = []string{"a", mCross, "\n", "?", mStart, mEnd, "\ufffd", "é"}
 
 func init() {
 	checks["C07"] = checkC07
@@ -111,9 +111,9 @@ func c07Pair(u, v []byte) string {
 }
 
 func checkC07(c *Ctx) {
-	n, nwf, npair := 6, 8, 4
+	n, nwf, npair := 5, 7, 3
 	if !c.Quick() {
-		n, nwf, npair = 8, 10, 5
+		n, nwf, npair = 7, 9, 4
 	}
 	en := NewStrEnum(alphaC07, n)
 	c.Section("C07/arbitrary", map[string]interface{}{"alphabet": alphaC07, "max_tokens": n}, en.Total, func(i int, w *Worker) {
@@ -162,5 +162,29 @@ func checkC07(c *Ctx) {
 		}
 		w.SeenB(wf[i])
 	})
+	// outputs produced by the library itself (as the other properties produce them)
+	u := universe()
+	sp := quickDirectives()
+	if c.Quick() {
+		sp = midDirectives()
+	}
+	c.Section("C07/library-outputs", map[string]interface{}{"directives": sp.Size(), "values": len(u), "instantiations": 2}, sp.Size(), func(i int, w *Worker) {
+		d := sp.Get(i)
+		f, stars := d.Format()
+		for vi := range u {
+			for v := 0; v < 2; v++ {
+				var out redact.RedactableString
+				if _, pan := recoverTo(func() { out = redact.Sprintf(f, append(append([]interface{}{}, stars...), u[vi].Mk(v))...) }); pan {
+					continue
+				}
+				w.Eval()
+				if cl, dt := c07Eval([]byte(out)); cl != "" {
+					w.Fail(cl, map[string]interface{}{"s": []byte(out), "quoted": q(string(out))}, dt)
+				}
+				w.SeenS(string(out))
+			}
+		}
+	})
+	replayers["C07/library-outputs"] = replayers["C07/arbitrary"]
 	c.Assume("Redact/StripMarkers distinguish only the two markers, the cross, LF, other bytes and partial-marker bytes; every one of those classes is a token")
 }
